@@ -61,7 +61,7 @@ def c01(tier, seed):
     run = Run("C01", tier, seed, "other", "bin/check C01 --tier " + tier)
     comp_layer(run, "C01", ("outp", "inp"), (1, 2), seed, tier)
     from . import system_layer as SL
-    SL.child_curr(run); SL.propagation(run); SL.solve_slice(run, "C01"); SL.graph_helpers(run, "C01")
+    SL.child_curr(run); SL.propagation(run); SL.solve_slice(run, "C01"); SL.graph_helpers(run, "C01"); SL.parents_childs(run, "C01")
     table_layer(run, "solve-table-oracle", ["C01"], seed, _n(tier, 500, 20000))
     table_layer(run, "solve-table-oracle/tables+polarity", ["C01"], seed + 1, _n(tier, 300, 10000), dict(p_table=0.8, p_neg=0.5, p_phases=0.2))
     from bounded import hist
@@ -98,7 +98,7 @@ def c04(tier, seed):
 def c03(tier, seed):
     run = Run("C03", tier, seed, "other", "bin/check C03 --tier " + tier)
     from . import system_layer as SL
-    SL.solve_loop(run)
+    SL.solve_loop(run); SL.init_state(run, "C03")
     SL.solve_slice(run, "C03")
     comp_layer(run, "C03", ("outp", "inp"), (1, 2), seed, tier, also=("LAW",))     # 'converged steady state': the laws themselves; 'else ValueError (unstable)': their raise conditions
     SL.graph_helpers(run, "TABLE")
@@ -115,7 +115,7 @@ def c05(tier, seed):
     from . import system_layer as SL
     SL.pri_inp(run)
     comp_layer(run, "C05", ("outp", "inp"), (1, 2, 3, 4), seed, tier, kinds=["PMux"])
-    SL.child_curr(run); SL.solve_slice(run, "C05"); SL.find_domain(run); SL.graph_helpers(run, "TABLE")
+    SL.child_curr(run); SL.solve_slice(run, "C05"); SL.find_domain(run); SL.graph_helpers(run, "TABLE"); SL.parents_childs(run, "C05")
     from bounded import families as BF
     run.add_bounded("mux live/dead patterns (exhaustive patterns x parameter sets)", BF.mux_family(seed, tier))
     from bounded import hist
@@ -129,7 +129,7 @@ def c06(tier, seed):
     run = Run("C06", tier, seed, "other", "bin/check C06 --tier " + tier)
     from . import system_layer as SL
     comp_layer(run, "C06", ("outp", "inp", "pwr"), (1, 2), seed, tier)
-    SL.phase_lkup(run); SL.propagation(run); SL.solve_slice(run, "C06"); SL.registry(run, "C06"); SL.graph_helpers(run, "TABLE")
+    SL.phase_lkup(run); SL.propagation(run); SL.solve_slice(run, "C06"); SL.registry(run, "C06"); SL.graph_helpers(run, "TABLE"); SL.init_state(run, "C06")
     from bounded import families as BF
     run.add_bounded("phase equivalences (solve(phase=p) == rows of p; unknown phase; no-config == phase-less)", BF.phase_family(seed, _n(tier, 150, 4000)))
     from bounded import hist
@@ -177,7 +177,7 @@ def _hist(run, props, seed, tier):
 def c14(tier, seed):
     run = Run("C14", tier, seed, "other", "bin/check C14 --tier " + tier)
     from . import system_layer as SL
-    SL.registry(run, "C14"); SL.graph_helpers(run, "C14")
+    SL.registry(run, "C14"); SL.graph_helpers(run, "C14"); SL.parents_childs(run, "C14")
     _hist(run, ["C14"], seed, tier)
     return run.finish()
 
